@@ -6,6 +6,10 @@ def T(test, shards, checks, steps=30, timeout=900, extra=None, shrink="20s"):
             "extra": extra or [], "shrink": shrink}
 
 
+def F(test, fuzztime, workers=16, timeout=7200):
+    return {"test": test, "fuzz": True, "fuzztime": fuzztime, "workers": workers, "timeout": timeout, "shards": 1}
+
+
 CHECKS = {
     "C18": {
         "level": "exploration",
@@ -189,5 +193,24 @@ CHECKS = {
                         "the retained window is 10 blocks below the highest head ever committed"],
         "quick": [T("TestC12Ledger", 6, 500, steps=35), T("TestC12Exec", 6, 40, steps=25)],
         "thorough": [T("TestC12Ledger", 8, 20000, steps=50, timeout=3000), T("TestC12Exec", 8, 1500, steps=35, timeout=3000)],
+    },
+    "C10": {
+        "level": "exploration",
+        "rule": ("metamorphic, rapid (thorough adds Go native coverage-guided fuzzing of the same property through "
+                 "rapid.MakeFuzz). State root: a base state and a net write set W over 3 accounts (storage set/overwrite/delete "
+                 "incl. empty, prefix and non-UTF-8 keys, balance, nonce, code) on the real SimpleLedger/leveldb; W is realised "
+                 "in canonical order and as 3 drawn realisations (permutation, preceding reads, snapshot+conflicting writes+"
+                 "revert noise, junk values overwritten later, split over transactions, reopen before the block, cache sizes "
+                 "production/1/4): all roots must be equal; 3 single perturbations (flip one value byte, add one key, drop one "
+                 "key, change one balance/nonce/code) that change the set of state changes must each change the root. "
+                 "Transaction/receipt root through the hook wrappers: swap of two positions, drop, add, and single-field "
+                 "perturbation of every hash-covered field must change the root. Non-trivial = |W| >= 3 storage keys over >= 2 "
+                 "accounts with a delete or an overwrite with the same value (state), >= 3 transactions (roots); distinct = "
+                 "hash of base+W / of the transaction hashes."),
+        "assumptions": ["only hash-covered fields are perturbed (tx: From, To, Timestamp, Payload, IBTP, Nonce, Amount, Typ, Signature; receipt: Status, Ret, Events, TxHash, Version)",
+                        "a list containing the same transaction twice is outside the domain (the Merkle library pads odd levels with the last leaf)",
+                        "nil and empty values are the same value"],
+        "quick": [T("TestC10State", 6, 250, steps=30), T("TestC10Roots", 2, 3000, steps=30)],
+        "thorough": [T("TestC10State", 8, 8000, steps=30, timeout=3000), T("TestC10Roots", 4, 100000, steps=30, timeout=3000), F("FuzzC10State", "240s")],
     },
 }
